@@ -6,7 +6,8 @@ Open Scope Z_scope.
 
 Definition gen_tables : tables := {|
   t_levels := security_levels;
-  t_rows := map (fun r => (ar_name r, ar_keysize r, {| ai_ok := ar_ok r; ai_plain := ar_plain r; ai_nonce := ar_nonce r |})) asym_rows;
+  t_rows := map (fun r => match r with (p, l, rk, (ok, pl, n)) => (p, l, rk, {| ai_ok := ok; ai_plain := pl; ai_nonce := n |}) end) asym_mixed;
+  t_chunk_rt := opn_chunk_rt;
   t_sym_nonce := map (fun p => (sp_name p, sp_nonce p)) sym_policies;
   t_sym_dir := sym_dir;
   t_asym_rt := asym_rt;
